@@ -33,6 +33,8 @@ OBLIGATIONS = [
      "statement": "each of the four orders is necessary: weakening any one admits a racy execution (first conjunct = F02, the ring as found)"},
     {"id": "C10_Q1", "theorem": "Iora.C10.Q1_fifo_lossless", "kind": "proved",
      "statement": "blocking queue, every schedule of every program set: puts = takes ++ queue (FIFO, each item at most once, nothing lost or invented)"},
+    {"id": "C10_Q1_results", "theorem": "Iora.C10.Q1_results_are_the_logs", "kind": "proved",
+     "statement": "per thread, every schedule: the values it pushed/popped (its entries of the global logs, in order) are exactly the arguments of its puts that returned true / the items its takes returned, in program order (per-producer order on return values)"},
     {"id": "C10_Q2", "theorem": "Iora.C10.Q2_capacity", "kind": "proved", "statement": "|queue| <= maxSize in every reachable state"},
     {"id": "C10_Q3a", "theorem": "Iora.C10.Q3_close_wakes_all", "kind": "proved",
      "statement": "after close() returned nobody is asleep on either condition variable"},
@@ -320,9 +322,30 @@ def gen_sched_case(rng, idx):
     (`q`, `d`) occurs, one thread (the closer) performs only timed/non-blocking calls and then `close()`."""
     nw = rng.choice([2, 2, 3, 3, 4])
     cap = rng.choice([1, 1, 2, 2, 3])
-    style = rng.below(6)
+    style = rng.below(8)
     progs = []
     blocking = False
+    if style >= 6:
+        # balanced, no close: blocking puts and blocking takes in equal number - terminates on a correct queue whatever the
+        # schedule, and ONLY if no wake-up between put and take is lost (close() cannot come to the rescue)
+        np_ = rng.range(1, nw - 1) if nw > 2 else 1
+        puts = [rng.range(1, 4) for _ in range(np_)]
+        total = sum(puts)
+        nc = nw - np_
+        takes = [0] * nc
+        for _ in range(total):
+            takes[rng.below(nc)] += 1
+        progs = [["q0"] * k for k in puts] + [["d"] * k for k in takes]
+        for p in progs:
+            if rng.chance(1, 3):
+                p.insert(rng.below(len(p) + 1), "s")
+        rng.shuffle(progs)
+        for t, p in enumerate(progs, 1):
+            for i, call in enumerate(p):
+                if call[0] == "q":
+                    p[i] = "q%d" % (t * 100 + i)
+        return {"cat": "bq-sched", "cap": cap, "progs": progs, "seed": rng.next() % (2 ** 32),
+                "timeoutOneIn": 8, "spuriousOneIn": rng.choice([0, 0, 20])}
     for w in range(1, nw + 1):
         n = rng.range(1, 5)
         if style == 0:      # producers / consumers
@@ -503,7 +526,52 @@ def load_corpus():
     return out
 
 
+def replay(ctx):
+    """Re-run a replay file against the real code (and the model); exit 1 if the failure is still there."""
+    import shutil
+    obj = json.load(open(ctx.replay))
+    ops = obj.get("ops") or []
+    ctx.translate(["orders", "bqskel"])
+    ok_build = ctx.lake_build(MODULES)
+    still = bool(ctx.violations)
+    dist = collections.Counter()
+    if ops and ops[0].startswith("g++"):
+        m = re.search(r"\./t (\d+) (\d+)", ops[0])
+        n0 = len(ctx.violations)
+        run_tsan(ctx, int(m.group(1)) if m else 300, dist)
+        still = len(ctx.violations) > n0
+    elif ops:
+        hb = ctx.build_harness(HARNESS, sanitize=True, flags=[DETSCHED])
+        if hb and ops[0].startswith("bq sched"):
+            out, rc, err = ctx.run_lines([hb], ops[:1], timeout=300)
+            print("op    %s\n impl  %s" % (ops[0][:300], (out[0] if out else "crash rc=%s" % rc)[:600]))
+            res = parse_sched_out(out[0]) if out else None
+            c = {"cat": "bq-sched", "cap": obj.get("maxSize", int(ops[0].split()[2])), "progs": obj.get("program") or
+                 [[] if p == "-" else p.split(",") for p in ops[0].split()[3].split("/")[1:]]}
+            fails = sched_monitor(c, res) if out else ["crash"]
+            for f in fails:
+                print("PROPERTY FAILS:", f[:400])
+            still = still or bool(fails)
+        elif hb:
+            cat = obj.get("category", "ring-dyn" if ops[0].startswith("ring") else "bq-seq")
+            c = {"cat": cat, "ops": ops}
+            (c, impl, model), = ctx.lockstep("queues", hb, [c])
+            for o, a, b in zip(ops, impl, model):
+                print("op    %s\n impl  %s\n model %s" % (o[:200], a[:200], b[:200]))
+            fails = ring_monitor(c, impl) if cat.startswith("ring") else bq_seq_monitor(c, impl)
+            for f in fails:
+                print("PROPERTY FAILS:", f[:400])
+            still = still or bool(fails) or impl != model
+    else:
+        print("replay: no op list in this file (kind=%s): the broken obligation is named in `broken`; re-run the check" % obj.get("kind"))
+    print("replay: %s" % ("still failing" if still else "no longer failing"))
+    shutil.rmtree(ctx.work, ignore_errors=True)
+    return 1 if still else 0
+
+
 def run(ctx: Ctx):
+    if ctx.replay:
+        return replay(ctx)
     quick = ctx.tier == "quick"
     scale = 1 if quick else 20
     rng = ctx.rng
@@ -517,7 +585,7 @@ def run(ctx: Ctx):
         ctx.cov["obligations"] = len(OBLIGATIONS)
     hb = ctx.build_harness(HARNESS, sanitize=True, flags=[DETSCHED])
     dist = collections.Counter()
-    if hb and ok_build:
+    if hb:      # the model driver depends on Model/* and Gen/* only: the dynamic layers run even when a theorem no longer builds
         corpus = load_corpus()
         seq_cases = [c for c in corpus if c.get("cat") != "bq-sched"]
         r1 = rng.fork("ring")
@@ -581,7 +649,7 @@ def run_tsan(ctx, ms, dist):
     ctx.extra["tsan_reports"] = n
     if n:
         first = err[err.find("WARNING: ThreadSanitizer"):][:2500]
-        where = re.findall(r"#0 (iora::core::\S+?)\(.*?ring_buffer\.hpp:(\d+)", first)
+        where = re.findall(r"#0 (iora::core::[^\n]*?)\s/\S*ring_buffer\.hpp:(\d+)", first)
         ctx.violation("property", "R3: ThreadSanitizer reports a data race inside the SPSC contract of the real ring (%s)"
                       % "; ".join("%s l.%s" % w for w in where[:2]),
                       {"ops": [cmd], "tsan_report": first, "reports": n, "observed": out.splitlines()}, found_input=True)
